@@ -10,7 +10,10 @@ import "io"
 // four) chunks, two workers; the replies are available at once, so the order
 // in which the workers see them is the scheduler's choice: every order.
 
-func vNChunks() int {
+// two chunks; three only where the schedule space finishes (concurrent WriteAt)
+func vNChunks() int { return 2 }
+
+func vNChunksW() int {
 	if vThorough() {
 		return 3
 	}
@@ -40,7 +43,7 @@ func vh_C13_readat_conc() {
 }
 
 func vh_C13_writeat_conc() {
-	l := vNChunks()
+	l := vNChunksW()
 	b := vNondetArray(l)
 	fail := vChoice(l+1) - 1
 	c, f, ff := vNewFaultXfer(nil, 1, fail)
